@@ -383,13 +383,88 @@ def subspaces(tier):
     subs.append(('d:half-precision', from_groups(half_items(tier), 1000)))
     subs.append(('d:single-double-extended', from_groups(wide_float_items(tier), 500)))
     subs.append(('e:reservation-padding-layout', list(layout_cases())))
+    subs.append(('f:packed-strings-per-argument', from_groups(packed_items())))
+    subs.append(('g:sub-unit-reservations', list(resv_cases())))
     return subs
+
+
+def packed_items():
+    """DATA on targets that pack two characters into a 16-bit word: every argument starts a word of its own, a string of odd
+    length leaves the upper half of its last word 0, arguments are laid down in order"""
+    alpha = [('"a"', 'a'), ('"ab"', 'ab'), ('"abc"', 'abc'), ('"abcd"', 'abcd'), ('4660', 4660), ('"z"', 'z')]
+    out = {}
+    for cpu in ('32015', '17c42'):
+        its = []
+        for n in (1, 2, 3):
+            for args in itertools.product(alpha, repeat=n):
+                b = b''
+                for _, v in args:
+                    if isinstance(v, int):
+                        b += v.to_bytes(2, 'little')
+                    else:
+                        e = v.encode() + (b'\0' if len(v) & 1 else b'')
+                        b += e
+                its.append({'line': '\tdata %s' % ','.join(a for a, _ in args), 'want': b.hex(), 'sig': '%s/data/packed-strings' % cpu})
+        out[cpu] = its
+    return out
+
+
+def resv_cases():
+    """'?' reservations of elements smaller than the address unit (DB in the word-addressed AVR code segment, DN nibbles), with
+    DUP groups starting at aligned and unaligned element positions: the address advances by ceil(elements / per-unit)"""
+    trees = []
+    for n in (1, 2, 3):
+        trees += [['?'], [(n, ['?'])], ['?', (n, ['?'])], [(n, ['?']), '?'], ['?', '?', (n, ['?'])], ['?', (n, ['?', (2, ['?'])]), '?'], [(n, ['?', '?', '?'])],
+                  ['?', (n, ['?']), (2, ['?'])]]
+    seen = []
+    for t in trees:
+        if t not in seen:
+            seen.append(t)
+    for cpu, kw, per, pre, prelen in (('atmega8', 'db', 2, 'nop', 1), ('8086', 'dn', 2, 'db 55h', 1), ('8086', 'db', 1, 'db 55h', 1), ('z80', 'dn', 2, 'db 55h', 1)):
+        for t in seen:
+            yield {'k': 'resv', 'cpu': cpu, 'kw': kw, 'per': per, 'pre': pre, 'prelen': prelen, 'tree': t}
+
+
+def ev_resv(case):
+    def count(t):
+        return sum(1 if x == '?' else x[0] * count(x[1]) for x in t)
+
+    def rd(t):
+        return ', '.join('?' if x == '?' else '%d dup (%s)' % (x[0], rd(x[1])) for x in t)
+    n = count(case['tree'])
+    start = 0x10
+    after = start + case['prelen'] + (n + case['per'] - 1) // case['per']
+    lines = ['\tcpu ' + case['cpu'], '\torg %d' % start, '\t' + case['pre'], 'buf:\t%s %s' % (case['kw'], rd(case['tree'])), 'after:\tdb 1,2', '\torg 256', '\tdw after']
+    core.fresh()
+    core.put('a.asm', '\n'.join(lines) + '\n')
+    o = core.run('asl', ['-q', 'a.asm'])
+    d = ' / '.join(l.strip() for l in lines)
+    ck = core.crashkind(o)
+    sig = '%s/%s' % (case['cpu'], case['kw'])
+    if ck:
+        return core.R(False, ck, 'crash/resv/' + ck, '%s on %s' % (ck, d))
+    p = core.get('a.p')
+    if o.rc != 0 or p is None:
+        return core.R(False, 'rejected', 'resv/rejected/' + sig, 'rc=%s %s on %s' % (o.rc, (o.out + o.err)[-150:].decode('latin-1'), d))
+    recs = pfile.data_records(pfile.read(p))
+    val = None
+    starts = []
+    for r in recs:
+        if r.start == 256:
+            val = int.from_bytes(r.data[:2], 'little')
+        else:
+            starts.append((r.start, len(r.data) // r.gran))
+    if val != after:
+        return core.R(False, 'layout-label', 'resv/address/' + sig, 'label after the reservation of %d elements reads %s, model %x on %s' % (n, val if val is None else hex(val), after, d))
+    if sorted(starts) != [(start, case['prelen']), (after, 2 // (2 if case['cpu'] == 'atmega8' else 1))]:
+        return core.R(False, 'layout-bytes', 'resv/bytes/' + sig, 'data records %s, model code at %x and %x only on %s' % (starts, start, after, d))
+    return core.R(True, 'resv-ok', states=['%s/%d' % (sig, n)])
 
 
 def describe(case):
     if case['k'] == 'batch':
         return [it['line'].strip()[:60] for it in case['items'][:4]]
-    if case['k'] == 'layout':
+    if case['k'] in ('layout', 'resv'):
         return case
     return case.get('line', '').strip()[:80]
 
@@ -401,4 +476,6 @@ def sigf(it):
 def evaluate(case):
     if case['k'] == 'layout':
         return ev_layout(case)
+    if case['k'] == 'resv':
+        return ev_resv(case)
     return micro.evaluate_batch(case, lambda a: 'org %d' % a, sigf)
